@@ -446,11 +446,11 @@ pub fn big_graph_strategy(kinds: &'static [u8], lo: u32, hi: u32, wmodes: &'stat
 }
 
 /// For properties that enumerate *all* shortest paths: replaces the shapes whose number of
-/// shortest paths grows exponentially or quadratically with the size (layered, complete, joined
-/// cliques) by a cycle once the graph has more than `max_n` nodes. (The API returns every shortest
+/// shortest paths grows exponentially or polynomially with the size (layered, complete, joined
+/// cliques, 3-column grid, circulant) by a cycle once the graph has more than `max_n` nodes. (The API returns every shortest
 /// path, so such inputs need memory exponential in n; that is not a defect.)
 pub fn tame_path_counts(mut g: GraphCase, max_n: u8) -> GraphCase {
-    if g.n > max_n && matches!(g.shape, 4 | 5 | 9) {
+    if g.n > max_n && matches!(g.shape, 4 | 5 | 6 | 9 | 10) {
         g.shape = 2;
     }
     g
